@@ -66,7 +66,10 @@ def run(tier, seed):
             jobs.append({"kind": "plain", "scenario": b})
             pairs.append({"a": a, "b": len(jobs) - 1, "rule": "identity", "scenario": b, "label": {"crop": sc["crop"]["name"], "outside": v}})
     # extending the end date leaves completed seasons unchanged (SwitchGDD excluded: calendar from the mean of all seasons, by design)
-    for sc in cal[:3] + anyc[2:4]:
+    # (a CO2 series with records only every few years: the concentration of the simulated years is interpolated between records on BOTH
+    #  sides of the window - the extension moves the end date across the 2003 record)
+    sparse = S("Maize", "Loam", seed=seed + 30, seasons=2, co2={"co2_data": [[1990, 355.0], [2000, 369.5], [2003, 378.0], [2010, 390.0]]})
+    for sc in cal[:3] + anyc[2:4] + [sparse]:
         a = len(jobs)
         jobs.append({"kind": "plain", "scenario": sc})
         for ext in ([1, 200, 365] if tier == "thorough" else [1, 365]):
